@@ -11,7 +11,7 @@ for d in sorted(glob.glob('/verif/seeded/*-*/')):
     sig=re.search(r'signature=([^;]+)',res)
     caught='rc=1' in res
     m['caught_by_quick_check']=caught
-    m['round']={'a':1,'b':1,'c':2,'d':2,'e':3,'f':3,'g':4,'h':4,'i':5,'j':5,'k':6,'l':6,'m':7,'n':7,'o':8,'p':8,'q':9,'r':9,'s':10,'t':10,'u':11,'v':11}.get(name[-1],1)
+    m['round']={'a':1,'b':1,'c':2,'d':2,'e':3,'f':3,'g':4,'h':4,'i':5,'j':5,'k':6,'l':6,'m':7,'n':7,'o':8,'p':8,'q':9,'r':9,'s':10,'t':10,'u':11,'v':11,'w':12,'x':12}.get(name[-1],1)
     if name in ood:
         m['out_of_domain']=ood[name]
     if name in missed_first:
@@ -21,11 +21,11 @@ for d in sorted(glob.glob('/verif/seeded/*-*/')):
 out=['# Seeded changes written by independent sub-agents','',
 'Each directory holds `patch.diff` (apply with `git -C /repo apply`, undo with `git -C /repo checkout -- .`), `demo.rs` (an integration test that passes on the clean tree and fails with the patch) and `meta.json` (what was confirmed, the author\'s notes on what the change needs in order to manifest, and the result of the property\'s quick check).',
 'The authors saw only the text of one property and a private scratch worktree; nothing from /verif. Every variant was re-confirmed by `tools/seed_confirm.sh` in the scratch worktree: demo passes without the change, all 102 unit tests pass with it, demo fails with it.',
-'Round 1 (variants a, b): one agent per property, two independent subtle changes each. Round 2 (variants c, d): agents were told that round 1 had produced straightforward single-site slips and were asked for harder-to-notice breakage combining several conditions. Round 3 (variants e, f): agents were told what rounds 1 and 2 looked like and asked for breakage through interactions with other API calls, value-dependent paths, larger sizes, state carried between calls and shared helpers. Round 4 (variants g, h): iteration order, id namespaces, large ids, absent-vs-default fields, metadata, idempotence, error paths, later elements of collections, text-format details. Round 5 (variants i, j): conditions a small-structure random generator hits with negligible probability (arithmetic relations between independent numbers, several optional features together, long call chains, creation order versus ids, medium sizes at powers of two, string shapes, caching / batching / pre-sizing rewrites, defensive normalisation, hand-written conversion impls). Round 6 (variants k, l): relations between two objects of one call, information flowing between fields, histories with an irrelevant-looking middle step, effects of an earlier failed call, float identities used as shortcuts, integer casts at ordinary counts, sort keys with ties, number formatting, unusual annotation values. Round 7 (variants m, n): told everything the generators cover by then; pointed at uncompared outputs (order, new ids / names / metadata, error contents), first-call-versus-later behaviour, parity of counts, three-way interactions on one id, doubly degenerate values, thirds and tenths with squares, the last element, rarely called operator / trait variants. Round 8 (variants o, p): two cooperating sites, other entry points / trait impls for the same job, dependence on unrelated content of the same object, longer mixed histories, arithmetic relations among input numbers, integer / float conversions at ordinary values, rarely written text-format features, container / metadata corner cases. Round 9 (variants q, r): as round 8, told what round 8 added, with the emphasis on cooperating sites and on state left behind by an earlier call of a different kind. Round 10 (variants s, t): the same brief, told what round 9 had added. Round 11 (variants u, v): the same brief once more, told what round 10 had added.','',
+'Round 1 (variants a, b): one agent per property, two independent subtle changes each. Round 2 (variants c, d): agents were told that round 1 had produced straightforward single-site slips and were asked for harder-to-notice breakage combining several conditions. Round 3 (variants e, f): agents were told what rounds 1 and 2 looked like and asked for breakage through interactions with other API calls, value-dependent paths, larger sizes, state carried between calls and shared helpers. Round 4 (variants g, h): iteration order, id namespaces, large ids, absent-vs-default fields, metadata, idempotence, error paths, later elements of collections, text-format details. Round 5 (variants i, j): conditions a small-structure random generator hits with negligible probability (arithmetic relations between independent numbers, several optional features together, long call chains, creation order versus ids, medium sizes at powers of two, string shapes, caching / batching / pre-sizing rewrites, defensive normalisation, hand-written conversion impls). Round 6 (variants k, l): relations between two objects of one call, information flowing between fields, histories with an irrelevant-looking middle step, effects of an earlier failed call, float identities used as shortcuts, integer casts at ordinary counts, sort keys with ties, number formatting, unusual annotation values. Round 7 (variants m, n): told everything the generators cover by then; pointed at uncompared outputs (order, new ids / names / metadata, error contents), first-call-versus-later behaviour, parity of counts, three-way interactions on one id, doubly degenerate values, thirds and tenths with squares, the last element, rarely called operator / trait variants. Round 8 (variants o, p): two cooperating sites, other entry points / trait impls for the same job, dependence on unrelated content of the same object, longer mixed histories, arithmetic relations among input numbers, integer / float conversions at ordinary values, rarely written text-format features, container / metadata corner cases. Round 9 (variants q, r): as round 8, told what round 8 added, with the emphasis on cooperating sites and on state left behind by an earlier call of a different kind. Round 10 (variants s, t): the same brief, told what round 9 had added. Round 11 (variants u, v): the same brief once more, told what round 10 had added. Round 12 (variants w, x; ten properties only, those with misses in rounds 10 and 11): the same brief, told what round 11 had added.','',
 '| seeded change | property | round | caught by quick check | failure signature | when |','|---|---|---|---|---|---|']
 for r in rows: out.append('| '+' | '.join(r)+' |')
-n1=[r for r in rows if r[2]=='1']; n2=[r for r in rows if r[2]=='2']; n3=[r for r in rows if r[2]=='3']; n4=[r for r in rows if r[2]=='4']; n5=[r for r in rows if r[2]=='5']; n6=[r for r in rows if r[2]=='6']; n7=[r for r in rows if r[2]=='7']; n8=[r for r in rows if r[2]=='8']; n9=[r for r in rows if r[2]=='9']; n10=[r for r in rows if r[2]=='10']; n11=[r for r in rows if r[2]=='11']
-out+=['',f'{len(rows)} variants ({len(n1)} in round 1, {len(n2)} in round 2, {len(n3)} in round 3, {len(n4)} in round 4, {len(n5)} in round 5, {len(n6)} in round 6, {len(n7)} in round 7, {len(n8)} in round 8, {len(n9)} in round 9, {len(n10)} in round 10, {len(n11)} in round 11), {sum(1 for r in rows if r[3]=="yes")} caught by the current checks. {len(missed_first)} were missed by the checks as first built and led to stronger generators / oracles:','']
+n1=[r for r in rows if r[2]=='1']; n2=[r for r in rows if r[2]=='2']; n3=[r for r in rows if r[2]=='3']; n4=[r for r in rows if r[2]=='4']; n5=[r for r in rows if r[2]=='5']; n6=[r for r in rows if r[2]=='6']; n7=[r for r in rows if r[2]=='7']; n8=[r for r in rows if r[2]=='8']; n9=[r for r in rows if r[2]=='9']; n10=[r for r in rows if r[2]=='10']; n11=[r for r in rows if r[2]=='11']; n12=[r for r in rows if r[2]=='12']
+out+=['',f'{len(rows)} variants ({len(n1)} in round 1, {len(n2)} in round 2, {len(n3)} in round 3, {len(n4)} in round 4, {len(n5)} in round 5, {len(n6)} in round 6, {len(n7)} in round 7, {len(n8)} in round 8, {len(n9)} in round 9, {len(n10)} in round 10, {len(n11)} in round 11, {len(n12)} in round 12), {sum(1 for r in rows if r[3]=="yes")} caught by the current checks. {len(missed_first)} were missed by the checks as first built and led to stronger generators / oracles:','']
 for k,v in missed_first.items(): out.append(f'* **{k}** — {v}.')
 out+=['','Not caught and not expected to be:','']+[f'* **{k}** — {v}' for k,v in ood.items()]
 out+=['','Two of the round-2 misses (C14-c, C14-d) were already caught by a sibling check (C05, C06) because the broken code belongs to evaluation; C14 was strengthened nevertheless.']
